@@ -20,6 +20,25 @@ COQ_SET = {'solver': 'SSolver', 'throw': 'SThrow', 'options': 'SOptions', 'callb
 FIELD = {'solver': 'solver', 'throw': 'solver_throw', 'options': 'solver_options', 'callback': 'solver_callback'}
 VALUES = {'solver': [0, 1, 2, 3], 'throw': [0, 1], 'options': [0, 1, 2, 3], 'callback': [0, 1, 2, 3]}
 
+# What a user can do with a lazy inverse AFTER creating it.  ['D', i, how] derives a new object from object i
+# (objects are numbered in creation order: the inverses made by ['N'] and the derived objects); ['A', i, route]
+# applies object i through a route.  Model: Derive (DReduce | DRoundTrip | DInvInv) i, ApplyVia route i.
+HOWS = ['reduce', 'compose_l', 'compose_r', 'sandwich', 'scale', 'sum', 'blockdiag', 'blockcol', 'blockrow', 'flatten', 'inv_inv']
+HOW_DOC = {
+    'reduce': 'X.reduce()', 'compose_l': '(L @ X).reduce()', 'compose_r': '(X @ R).reduce()', 'sandwich': '(L @ X @ R).reduce()',
+    'scale': '(2 * X).reduce()', 'sum': '(X + Zero).reduce()', 'blockdiag': 'BlockDiagonalOperator([X, L]).reduce()',
+    'blockcol': 'BlockColumnOperator([X, L]).reduce()', 'blockrow': 'BlockRowOperator([X, Zero]).reduce()',
+    'flatten': 'jax.tree.unflatten(*reversed(jax.tree.flatten(X)))', 'inv_inv': '(the lazy inverse held by X).I.I',
+}  # fmt: skip
+COQ_HOW = {h: 'DReduce' for h in HOWS} | {'flatten': 'DRoundTrip', 'inv_inv': 'DInvInv'}
+ROUTES = ['eager', 'jit', 'jitarg', 'fjitarg', 'matrix']
+ROUTE_DOC = {
+    'eager': 'X(v)', 'jit': 'jax.jit(lambda v: X(v))(v)', 'jitarg': 'F(X, v) with ONE F = jax.jit(lambda op, v: op(v)) per history',
+    'fjitarg': 'G(X, v) with ONE G = equinox.filter_jit(lambda op, v: op(v)) per history',
+    'matrix': '(X @ column(v)).as_matrix()[:, 0] (generic as_matrix: fori_loop over mv)',
+}
+COQ_ROUTE = {'eager': 'REager', 'jit': 'RJitClosure', 'jitarg': '(RJitArg 0)', 'fjitarg': '(RJitArg 1)', 'matrix': 'RMatrix'}
+
 # The probed system (exact small integers; float64): A is SPD 16x16 with eigenvalues in [2.4, 9.5]; Z is A with
 # its last row and column zeroed (singular) and B has a component in the null space of Z, so NO solver can
 # solve Z x = B (the residual keeps that component): the solve fails whatever the solver and the options.
@@ -32,10 +51,17 @@ VEC_TOL = 1e-9  # relative (max norm) tolerance when recognising a returned vect
 LEGEND = (
     "identifiers: solver 0 = the default CG(rtol=atol=1e-6, max_steps=500), 1 = CG(1e-12, 1e-12, max_steps=2), "
     "2 = CG(1e-12, 1e-12, max_steps=3), 3 = CG(1/64, 1/64, max_steps=500); solver_throw 0/1 = False/True; "
-    "solver_options 0 = {}, 1 = {preconditioner: Jacobi}, 2 = {y0: X0}, 3 = {preconditioner: P2, y0: X0}; "
+    "solver_options 0 = {}, 1 = {preconditioner: Jacobi}, 2 = {preconditioner: P2} (same key as 1, another value), "
+    "3 = {preconditioner: P2, y0: X0}; "
     "solver_callback 0 = default_solver_callback, n = recording callback n; 'main' = effect of A.I(B) (16x16 SPD, see "
     "harness/c19.py matrices()), 'sing' = effect of Z.I(B) (singular: every solve fails), as ['raised'] or "
-    "['ret', solver and options whose reference solve gives the returned vector and step count, callback that ran]"
+    "['ret', solver and options whose reference solve gives the returned vector and step count, callback that ran]; "
+    "events: ['E', kw] with Config(**kw): / ['X'] end of block / ['XE'] block left by an exception / ['N'] X = A.I (and Z.I) / "
+    "['R'] Config.instance() / ['D', i, how] derive an object from object i (L, R: 16x16 cyclic-shift dense operators, Zero: zero "
+    "dense operator; the input/output of the derived expression are mapped so that the held inverse still sees exactly B): "
+    + '; '.join(f'{k} = {v}' for k, v in HOW_DOC.items())
+    + " / ['A', i, route] apply object i: "
+    + '; '.join(f'{k} = {v}' for k, v in ROUTE_DOC.items())
 )
 
 _impl = {}
@@ -57,7 +83,7 @@ def matrices():
     P1 = np.diag(1 / np.diag(A))  # Jacobi
     P2 = P1.copy()
     for i in range(N - 1):
-        P2[i, i + 1] = P2[i + 1, i] = 1 / 32
+        P2[i, i + 1] = P2[i + 1, i] = 1 / 64
     return A, Z, P1, P2, np.array(B, float), np.array(X0, float)
 
 
@@ -140,8 +166,11 @@ def impl():
         3: lx.CG(rtol=1 / 64, atol=1 / 64, max_steps=500),
     }
     y0 = jnp.asarray(x0, dtype=jnp.float64)
-    options = {0: {}, 1: {'preconditioner': dense(P1)}, 2: {'y0': y0}, 3: {'preconditioner': dense(P2), 'y0': y0}}
-    ref_opts = {0: {}, 1: {'P': P1}, 2: {'x0': x0}, 3: {'P': P2, 'x0': x0}}
+    # 1 and 2 have the SAME keys and different values (a comparison of the options by their keys conflates them);
+    # 2 and 3 share the preconditioner OBJECT and differ by a key
+    precond2 = dense(P2)
+    options = {0: {}, 1: {'preconditioner': dense(P1)}, 2: {'preconditioner': precond2}, 3: {'preconditioner': precond2, 'y0': y0}}
+    ref_opts = {0: {}, 1: {'P': P1}, 2: {'P': P2}, 3: {'P': P2, 'x0': x0}}
     callbacks = {0: default.solver_callback}
     for n in (1, 2, 3):
 
@@ -163,10 +192,15 @@ def impl():
             d = np.max(np.abs(ref[k1]['x'] - ref[k2]['x'])) / np.max(np.abs(ref[k1]['x']))
             if d < 20 * VEC_TOL:
                 raise RuntimeError(f'harness self-check: reference vectors of {k1} and {k2} are not separated ({d:.2e})')
+    # auxiliary operands of the expressions a lazy inverse gets embedded in: cyclic shifts (exact permutations whose
+    # transposes undo them, and which no algebraic rule rewrites) and the zero operator
+    Lm = np.roll(np.eye(N), 1, axis=1)
+    Rm = np.roll(np.eye(N), 3, axis=1)
     _impl.update(
         fc=fc, fields=fields, solvers=solvers, callbacks=callbacks, options=options, cb_log=[], default=default,
         opA=dense(A), opZ=dense(Z), y=jnp.asarray(b, dtype=jnp.float64), ref=ref,
         fails=sorted(k for k in ref if not ref[k]['ok']),
+        L=dense(Lm), R=dense(Rm), Zero=dense(np.zeros((N, N))), Lm=jnp.asarray(Lm), Rm=jnp.asarray(Rm), struct=struct,
     )
     return _impl
 
@@ -207,8 +241,9 @@ def cfg_ids(state) -> list[int]:
 # ---- the effect of a configuration on op.I(y) ------------------------------------------------------
 
 
-def probe(inv, jit=False):
-    """Apply a lazy inverse to B: (exception type or None, returned vector or None, callbacks that ran)."""
+def probe(call):
+    """Run call() - an application of an object holding a lazy inverse to B, mapped back to the vector the
+    inverse returned: (exception type or None, returned vector or None, callbacks that ran)."""
     import jax
 
     im = impl()
@@ -216,10 +251,9 @@ def probe(inv, jit=False):
     del log[:]
     buf = io.StringIO()
     raised, x = None, None
-    with contextlib.redirect_stdout(buf):
+    with contextlib.redirect_stdout(buf), contextlib.redirect_stderr(io.StringIO()):
         try:
-            f = jax.jit(lambda v: inv(v)) if jit else inv
-            x = f(im['y'])
+            x = call()
             jax.block_until_ready(x)
         except RuntimeError as e:  # lineax reports a failed solve (throw=True) as a runtime error
             raised = type(e).__name__
@@ -246,13 +280,14 @@ def classify(x):
     return None
 
 
-def observe_effect(pair, jit=False):
-    """Abstract effect (Model.Config.effect) of applying the inverses of A and of Z created together."""
+def observe_effect(calls, jit=False):
+    """Abstract effect (Model.Config.effect) of applying the objects holding the inverses of A and of Z created
+    together; calls = [application on A, application on Z] (thunks); jit: the application is compiled."""
     import numpy as np
 
     im = impl()
     out = {}
-    raised, x, cbs = probe(pair[0], jit)
+    raised, x, cbs = probe(calls[0])
     if raised and raised.startswith('unexpected'):
         out['main'] = ['odd', {'raised': raised, 'callbacks': cbs}]
     elif raised:
@@ -260,12 +295,12 @@ def observe_effect(pair, jit=False):
         out['main'] = ['raised'] if (jit or not cbs) else ['odd', {'raised': raised, 'callbacks': cbs}]
     else:
         k = classify(x)
-        if k is not None and len(cbs) == 1 and cbs[0][1] == im['ref'][k]['steps']:
+        if x is not None and np.shape(x) == (N,) and k is not None and len(cbs) == 1 and cbs[0][1] == im['ref'][k]['steps']:
             out['main'] = ['ret', k[0], k[1], cbs[0][0]]
         else:
             out['main'] = ['odd', {'vector_of_solver_options': list(k) if k else None, 'callbacks': cbs,
-                                   'x[:3]': [float(v) for v in np.asarray(x).ravel()[:3]]}]
-    raised, x, cbs = probe(pair[1], jit)
+                                   'x[:3]': [float(v) for v in np.asarray(x, dtype=float).ravel()[:3]]}]
+    raised, x, cbs = probe(calls[1])
     if raised and raised.startswith('unexpected'):
         out['sing'] = ['odd', {'raised': raised, 'callbacks': cbs}]
     elif raised:
@@ -293,6 +328,32 @@ class Boom(Exception):
     pass
 
 
+def run_eq(case):
+    """Two configurations made with genuine `with Config(...)` blocks (every field named), and the lazy inverses
+    created in them: equality of the ConfigState objects and of the tree structures of the inverses."""
+    import jax
+
+    im = impl()
+    states, invs = [], []
+    for ids in (case['a'], case['b']):
+        with im['fc'].Config(**to_kwargs(dict(zip(SETTINGS, ids)))) as st:
+            invs.append(im['opA'].I)
+        states.append(st)
+    out = {'ids': [cfg_ids(st) for st in states]}
+    out['eq'] = bool(states[0] == states[1])
+    out['ne'] = bool(states[0] != states[1])
+    hs = []
+    for st in states:
+        try:
+            hs.append(hash(st))
+        except TypeError:
+            hs.append(None)
+    out['hash'] = 'unhashable' if None in hs else ('equal' if hs[0] == hs[1] else 'different')
+    out['inverse_config_eq'] = bool(invs[0].config == invs[1].config)
+    out['inverse_treedef_eq'] = bool(jax.tree.structure(invs[0]) == jax.tree.structure(invs[1]))
+    return out
+
+
 def make_inverse(fx=False):
     """Genuine lazy inverses (iterative solver) obtained with `op.I`: of A and, for effect cases, of Z."""
     from furax._base.core import InverseOperator
@@ -303,6 +364,128 @@ def make_inverse(fx=False):
         if type(inv) is not InverseOperator:
             raise RuntimeError(f'op.I is a {type(inv).__name__}, not a lazy InverseOperator')
     return invs
+
+
+class Obj:
+    """An object holding a lazy inverse: the same expression built on A.I and (effect cases) on Z.I, with the maps
+    that make the held inverse see exactly the probe vector and recover the vector it returned."""
+
+    def __init__(self, ops, inp=None, out=None, in_vec=True, out_vec=True, chain=()):
+        self.ops = ops
+        self.inp = inp or (lambda v: v)  # probe vector -> input pytree of the expression
+        self.out = out or (lambda r: r)  # output pytree of the expression -> vector returned by the held inverse
+        self.in_vec = in_vec  # the expression takes / returns a single N-vector
+        self.out_vec = out_vec
+        self.chain = tuple(chain)
+
+
+def held_inverses(expr):
+    """The lazy InverseOperator objects held by an expression."""
+    import jax
+    from furax._base.core import InverseOperator
+
+    return [x for x in jax.tree.leaves(expr, is_leaf=lambda x: type(x) is InverseOperator) if type(x) is InverseOperator]
+
+
+def held_ids(expr):
+    """Identifiers of the configuration stored by THE lazy inverse held by an expression (a string if it holds
+    none or several: an odd observation, reported by the oracle)."""
+    invs = held_inverses(expr)
+    if len(invs) != 1:
+        return f'the {type(expr).__name__} holds {len(invs)} lazy inverses instead of 1'
+    return cfg_ids(invs[0].config)
+
+
+def derive(how, X: Obj) -> Obj:
+    """Derive a new object from X under the configuration that is active NOW (see HOW_DOC)."""
+    import jax
+    from furax._base.blocks import BlockColumnOperator, BlockDiagonalOperator, BlockRowOperator
+
+    im = impl()
+    L, R, Zero, Lm, Rm = im['L'], im['R'], im['Zero'], im['Lm'], im['Rm']
+    inp, out = X.inp, X.out
+    need = {'compose_l': (False, True), 'compose_r': (True, False), 'sandwich': (True, True), 'sum': (True, True),
+            'blockcol': (True, False), 'blockrow': (False, True)}.get(how, (False, False))  # fmt: skip
+    if (need[0] and not X.in_vec) or (need[1] and not X.out_vec):
+        how = 'blockdiag'  # the only container that accepts any structure
+    chain = X.chain + (how,)
+    if how == 'reduce':
+        return Obj([E.reduce() for E in X.ops], inp, out, X.in_vec, X.out_vec, chain)
+    if how == 'flatten':
+        ops = []
+        for E in X.ops:
+            leaves, treedef = jax.tree.flatten(E)
+            ops.append(jax.tree.unflatten(treedef, leaves))
+        return Obj(ops, inp, out, X.in_vec, X.out_vec, chain)
+    if how == 'inv_inv':
+        ops = []
+        for E in X.ops:
+            invs = held_inverses(E)
+            if len(invs) != 1:
+                raise RuntimeError(f'the {type(E).__name__} holds {len(invs)} lazy inverses instead of 1')
+            inv = invs[0]
+            if inv.I is not inv.operator:
+                raise RuntimeError('inverse.I is not the operand of the lazy inverse')
+            ops.append(inv.I.I)
+        return Obj(ops, chain=chain)
+    if how == 'compose_l':
+        return Obj([(L @ E).reduce() for E in X.ops], inp, lambda r: out(Lm.T @ r), X.in_vec, True, chain)
+    if how == 'compose_r':
+        return Obj([(E @ R).reduce() for E in X.ops], lambda v: Rm.T @ inp(v), out, True, X.out_vec, chain)
+    if how == 'sandwich':
+        return Obj([(L @ E @ R).reduce() for E in X.ops], lambda v: Rm.T @ inp(v), lambda r: out(Lm.T @ r), True, True, chain)
+    if how == 'scale':
+        return Obj([(2.0 * E).reduce() for E in X.ops], inp, lambda r: out(jax.tree.map(lambda a: a / 2, r)), X.in_vec, X.out_vec, chain)
+    if how == 'sum':
+        return Obj([(E + Zero).reduce() for E in X.ops], inp, out, True, True, chain)
+    if how == 'blockdiag':
+        return Obj([BlockDiagonalOperator([E, L]).reduce() for E in X.ops], lambda v: [inp(v), v], lambda r: out(r[0]), False, False, chain)
+    if how == 'blockcol':
+        return Obj([BlockColumnOperator([E, L]).reduce() for E in X.ops], inp, lambda r: out(r[0]), True, False, chain)
+    if how == 'blockrow':
+        return Obj([BlockRowOperator([E, Zero]).reduce() for E in X.ops], lambda v: [inp(v), v], out, False, True, chain)
+    raise ValueError(how)
+
+
+def apply_via(route, E, X: Obj, jitted):
+    """The thunk applying expression E (one of X.ops) to the probe vector through a route (see ROUTE_DOC)."""
+    import jax
+    import jax.numpy as jnp
+    from furax._base.blocks import BlockColumnOperator
+    from furax._base.core import AbstractLinearOperator
+    from furax._base.dense import DenseBlockDiagonalOperator
+
+    im = impl()
+    v = X.inp(im['y'])
+    if route == 'eager':
+        return lambda: X.out(E(v))
+    if route == 'jit':
+        return lambda: X.out(jax.jit(lambda w: E(w))(v))
+    if route in ('jitarg', 'fjitarg'):
+        return lambda: X.out(jitted(route)(E, v))
+    if route == 'matrix':
+
+        def call():
+            one = jax.ShapeDtypeStruct((1,), jnp.float64)
+            cols = jax.tree.map(lambda leaf: DenseBlockDiagonalOperator(leaf[:, None], one, 'ij,j->i'), v)
+            col = cols if X.in_vec else BlockColumnOperator(cols)
+            expr = E @ col
+            if type(expr).as_matrix is not AbstractLinearOperator.as_matrix:
+                raise RuntimeError(f'{type(expr).__name__}.as_matrix is not the generic as_matrix')
+            m = expr.as_matrix()
+            leaves, treedef = jax.tree.flatten(E.out_structure())
+            parts, k = [], 0
+            for leaf in leaves:
+                parts.append(m[k : k + leaf.size, 0].reshape(leaf.shape))
+                k += leaf.size
+            return X.out(jax.tree.unflatten(treedef, parts))
+
+        return call
+    raise ValueError(route)
+
+
+def event_route(e, case_jit=False):
+    return e[2] if len(e) > 2 else ('jit' if case_jit else 'eager')
 
 
 class Runner:
@@ -316,6 +499,16 @@ class Runner:
         self.invs = []
         self.fx = fx  # observe applications through their EFFECT (genuine solves), not only the stored field
         self.jit = jit
+        self._jitted = {}
+
+    def jitted(self, route):
+        """THE jitted function of this history for a route: the objects are passed to it as arguments."""
+        if route not in self._jitted:
+            import equinox
+            import jax
+
+            self._jitted[route] = {'jitarg': jax.jit, 'fjitarg': equinox.filter_jit}[route](lambda op, v: op(v))
+        return self._jitted[route]
 
     def record(self, o):
         self.obs.append((self.tid, o))
@@ -354,19 +547,24 @@ class Runner:
                 pos += 1
                 continue
             if e[0] == 'N':
-                self.invs.append(make_inverse(self.fx))
+                self.invs.append(Obj(make_inverse(self.fx)))
+                self.record(None)
+            elif e[0] == 'D':
+                if e[1] < len(self.invs):
+                    self.invs.append(derive(e[2], self.invs[e[1]]))
                 self.record(None)
             elif e[0] == 'A':
-                pair = self.invs[e[1]] if e[1] < len(self.invs) else None
-                if pair is None:
+                X = self.invs[e[1]] if e[1] < len(self.invs) else None
+                if X is None:
                     self.record([])
                 elif not self.fx:
-                    self.record(cfg_ids(pair[0].config))
+                    self.record(held_ids(X.ops[0]))
                 else:
-                    o = {'cfg': cfg_ids(pair[0].config)}
-                    if cfg_ids(pair[1].config) != o['cfg']:
-                        o['cfg_of_second_inverse'] = cfg_ids(pair[1].config)
-                    o.update(observe_effect(pair, self.jit))
+                    o = {'cfg': held_ids(X.ops[0])}
+                    if held_ids(X.ops[1]) != o['cfg']:
+                        o['cfg_of_second_inverse'] = held_ids(X.ops[1])
+                    route = event_route(e, self.jit)
+                    o.update(observe_effect([apply_via(route, E, X, self.jitted) for E in X.ops], route != 'eager'))
                     self.record(o)
             elif e[0] == 'R':
                 self.record(cfg_ids(fc.Config.instance()))
@@ -429,40 +627,14 @@ class Gate:
         self.start(child, contextvars.copy_context())
 
 
-def reference(events, start=None, fx=False):
-    """Stack discipline stated independently of the Coq model: (observations, final configuration).
-    With fx an application is observed as the captured settings plus their expected effect on op.I(y)."""
+def walk(events, start=None):
+    """Stack discipline and provenance of the objects, stated independently of the Coq model.  Yields for every
+    event (index, event, active configuration after it, objects so far); an object is a dict
+    cfg = the configuration it must use (the one active when the lazy inverse it holds was created),
+    derived = [(how, configuration active at that derivation)] since that creation,
+    replaced = the configuration of the object `.I.I` was taken from (a NEW lazy inverse), if any."""
     cur = list(start or [0, 0, 0, 0])
-    stack, invs, obs = [], [], []
-    for e in events:
-        if e[0] == 'E':
-            stack.append(list(cur))
-            for k, v in e[1].items():
-                cur[SETTINGS.index(k)] = v
-            obs.append(None)
-        elif e[0] in ('X', 'XE'):
-            cur = stack.pop()
-            obs.append(None)
-        elif e[0] == 'N':
-            invs.append(list(cur))
-            obs.append(None)
-        elif e[0] == 'A':
-            if e[1] >= len(invs):
-                obs.append([])
-            elif fx:
-                obs.append({'cfg': list(invs[e[1]]), **expected_effect(invs[e[1]])})
-            else:
-                obs.append(list(invs[e[1]]))
-        elif e[0] == 'R':
-            obs.append(list(cur))
-        elif e[0] == 'F':
-            obs.append('fork')
-    return obs, cur
-
-
-def applications(events):
-    """(event index, configuration captured by the applied inverse, configuration active at the application)."""
-    cur, stack, invs, out = [0, 0, 0, 0], [], [], []
+    stack, objs = [], []
     for i, e in enumerate(events):
         if e[0] == 'E':
             stack.append(list(cur))
@@ -471,9 +643,52 @@ def applications(events):
         elif e[0] in ('X', 'XE'):
             cur = stack.pop()
         elif e[0] == 'N':
-            invs.append(list(cur))
-        elif e[0] == 'A' and e[1] < len(invs):
-            out.append((i, list(invs[e[1]]), list(cur)))
+            objs.append({'cfg': list(cur), 'derived': [], 'replaced': None})
+        elif e[0] == 'D' and e[1] < len(objs):
+            src = objs[e[1]]
+            if e[2] == 'inv_inv':
+                objs.append({'cfg': list(cur), 'derived': [], 'replaced': list(src['cfg'])})
+            else:
+                objs.append({'cfg': list(src['cfg']), 'derived': src['derived'] + [(e[2], list(cur))], 'replaced': src['replaced']})
+        yield i, e, list(cur), objs
+
+
+def reference(events, start=None, fx=False):
+    """(observations, final configuration).  With fx an application is observed as the configuration of the
+    object plus its expected effect on op.I(y), whatever the route of application."""
+    obs, cur = [], list(start or [0, 0, 0, 0])
+    for _, e, cur, objs in walk(events, start):
+        if e[0] == 'A':
+            if e[1] >= len(objs):
+                obs.append([])
+            elif fx:
+                obs.append({'cfg': list(objs[e[1]]['cfg']), **expected_effect(objs[e[1]]['cfg'])})
+            else:
+                obs.append(list(objs[e[1]]['cfg']))
+        elif e[0] == 'R':
+            obs.append(list(cur))
+        elif e[0] == 'F':
+            obs.append('fork')
+        else:
+            obs.append(None)
+    return obs, cur
+
+
+def applications(events, case_jit=False):
+    """Every application of an existing object: dict(i = event index, cap = configuration the object must use,
+    act = configuration active at the application, derived / replaced as in walk(), route, earlier = the
+    configurations of the objects passed EARLIER to the same jitted function (routes jitarg / fjitarg))."""
+    out, passed = [], {}
+    for i, e, cur, objs in walk(events):
+        if e[0] == 'A' and e[1] < len(objs):
+            o = objs[e[1]]
+            route = event_route(e, case_jit)
+            a = {'i': i, 'cap': list(o['cfg']), 'act': cur, 'derived': list(o['derived']), 'replaced': o['replaced'],
+                 'route': route, 'earlier': []}  # fmt: skip
+            if route in ('jitarg', 'fjitarg'):
+                a['earlier'] = [list(c) for c in passed.get(route, [])]
+                passed.setdefault(route, []).append(list(o['cfg']))
+            out.append(a)
     return out
 
 
@@ -488,22 +703,54 @@ def hybrids(captured, active):
             yield [SETTINGS[j] for j in sub], h
 
 
+def one_field_swaps(cap, other):
+    """(setting, configuration `cap` with that one setting taken from `other`) for the settings that differ."""
+    for j, f in enumerate(SETTINGS):
+        if cap[j] != other[j]:
+            h = list(cap)
+            h[j] = other[j]
+            yield f, (cap[j], other[j]), h
+
+
 def sensitivity(cases):
-    """For every setting and every ordered pair (value at creation, value at application): the number of
-    applications in the effect cases whose expected outcome would CHANGE if that one setting were taken from
-    the configuration active at application time.  Zero anywhere = a blind spot of the generators."""
-    table = {f: {p: 0 for p in itertools.permutations(VALUES[f], 2)} for f in SETTINGS}
+    """Blind-spot tables of the generators (a zero anywhere fails the check closed).  For every setting and every
+    ordered pair (value the object must use, other value), the number of applications in the effect cases whose
+    expected outcome would CHANGE if that one setting were taken instead from
+      'application': the configuration active at application time,
+      'derivation':  the configuration active when an expression holding the inverse was reduced / round-tripped,
+      'jit-argument': the configuration of an object passed earlier to the same jitted function, which differs
+                      from this one in that setting ONLY (what a jit cache keyed on an equality that ignores
+                      the setting would run)."""
+    blank = lambda: {f: {p: 0 for p in itertools.permutations(VALUES[f], 2)} for f in SETTINGS}  # noqa: E731
+    tables = {'application': blank(), 'derivation': blank(), 'jit-argument': blank()}
+    per_how = {h: dict.fromkeys(SETTINGS, 0) for h in HOWS if h != 'inv_inv'}
+    per_route = {r: dict.fromkeys(SETTINGS, 0) for r in ROUTES}
+    per_route |= {'earlier argument of ' + r: dict.fromkeys(SETTINGS, 0) for r in ('jitarg', 'fjitarg')}
+    inv_inv = dict.fromkeys(SETTINGS, 0)
     for c in cases:
         if c['kind'] != 'single' or not c.get('fx'):
             continue
-        for _, cap, act in applications(c['events']):
-            for j, f in enumerate(SETTINGS):
-                if cap[j] != act[j]:
-                    h = list(cap)
-                    h[j] = act[j]
-                    if expected_effect(h) != expected_effect(cap):
-                        table[f][cap[j], act[j]] += 1
-    return table
+        for a in applications(c['events'], c.get('jit', False)):
+            want = expected_effect(a['cap'])
+            for f, pair, h in one_field_swaps(a['cap'], a['act']):
+                if expected_effect(h) != want:
+                    tables['application'][f][pair] += 1
+                    per_route[a['route']][f] += 1
+            for how, dcfg in a['derived']:
+                for f, pair, h in one_field_swaps(a['cap'], dcfg):
+                    if expected_effect(h) != want:
+                        tables['derivation'][f][pair] += 1
+                        per_how[how][f] += 1
+            if a['replaced'] is not None and not a['derived']:
+                for f, pair, h in one_field_swaps(a['cap'], a['replaced']):
+                    if expected_effect(h) != want:
+                        inv_inv[f] += 1
+            for prev in a['earlier']:
+                swaps = list(one_field_swaps(a['cap'], prev))
+                if len(swaps) == 1 and expected_effect(prev) != want:
+                    tables['jit-argument'][swaps[0][0]][swaps[0][1]] += 1
+                    per_route['earlier argument of ' + a['route']][swaps[0][0]] += 1
+    return tables, per_how, per_route, inv_inv
 
 
 KWS = [
@@ -565,12 +812,139 @@ def directed_cases(rng, quick):
     return cases
 
 
-def enum_histories(maxlen, kws):
-    """All well-nested histories with at most maxlen events."""
+def must_bases(f):
+    """Values of the other settings under which setting f decides the outcome of op.I(y)."""
+    others = [g for g in SETTINGS if g != f]
+    must = [dict.fromkeys(others, 0)]
+    if f == 'throw':
+        must.append({'solver': 1, 'options': 0, 'callback': 1})
+    else:
+        must.append({**dict.fromkeys(others, 0), 'throw': 1, **({'solver': 3} if f != 'solver' else {})})
+    return must
+
+
+def deciding_base(f, v1, v2):
+    """A value of the other settings under which the values v1 and v2 of setting f give different outcomes."""
+    for base in reversed(must_bases(f)):
+        if expected_effect([base.get(g, v1) for g in SETTINGS]) != expected_effect([base.get(g, v2) for g in SETTINGS]):
+            return base
+    raise RuntimeError(f'no base tells the values {v1}, {v2} of {f} apart')
+
+
+def all_bases(f):
+    others = [g for g in SETTINGS if g != f]
+    return [dict(zip(others, vs)) for vs in itertools.product(*(VALUES[g] for g in others))]
+
+
+def derive_histories(f, vc, vd, base, how, route=None):
+    """The inverse is created with setting f = vc; an object is derived from it (`how`) while f = vd is active;
+    the derived object is applied inside that block, in an enclosing / later block and after every block."""
+    b = nz(base)
+    A = (lambda i: ['A', i, route]) if route else (lambda i: ['A', i])
+    D = ['D', 0, how]
+    return [
+        # created in one block, derived in a sibling block, applied in the enclosing block
+        [['E', b], ['E', {f: vc}], ['N'], ['X'], ['E', {f: vd}], D, ['X'], A(1), ['X']],
+        # created in the outer block, derived in a block nested in it, applied there and after it
+        [['E', {**b, f: vc}], ['N'], ['E', {f: vd}], D, A(1), ['X'], A(1), ['X']],
+        # created in a block, derived in a later block left by an exception, applied after every block is closed
+        [['E', {**b, f: vc}], ['N'], ['X'], ['E', {**b, f: vd}], D, ['XE'], A(1)],
+        # created in a block, derived in a nested block, applied in a later block that sets f again
+        [['E', {**b, f: vc}], ['N'], ['E', {f: vd}], D, ['X'], ['X'], ['E', {f: vd}], A(1), A(0), ['X']],
+        # derived twice in a row (the second time from the derived object, under the defaults)
+        [['E', {**b, f: vc}], ['N'], ['X'], ['E', {**b, f: vd}], D, ['X'], ['D', 1, how], A(2), A(1)],
+    ]
+
+
+def jitarg_histories(f, v1, v2, base, route):
+    """Two inverses of the same operator whose configurations differ in setting f ONLY go one after the other
+    through the same jitted function, as arguments."""
+    b = nz(base)
+    A = lambda i: ['A', i, route]  # noqa: E731
+    return [
+        [['E', b], ['E', {f: v1}], ['N'], ['X'], ['E', {f: v2}], ['N'], ['X'], ['X'], A(0), A(1), A(0)],
+        [['E', {**b, f: v1}], ['N'], ['E', {f: v2}], ['N'], A(0), A(1), ['X'], A(1), A(0), ['X']],
+        [['E', {**b, f: v1}], ['N'], ['X'], ['E', {**b, f: v2}], ['N'], ['D', 1, 'flatten'], ['XE'], A(0), A(2), A(1)],
+    ]
+
+
+def after_creation_cases(rng, quick):
+    """The blind spot closed in round 2: what happens to the captured configuration AFTER the creation."""
+    cases = []
+    n = 0
+    # (a) every way of deriving x every setting x every ordered pair (value at creation, value at derivation)
+    for f in SETTINGS:
+        rest = [b for b in all_bases(f) if b not in must_bases(f)]
+        for vc, vd in itertools.permutations(VALUES[f], 2):
+            bases = must_bases(f) + (rng.sample(rest, 1) if quick else rng.sample(rest, 6))
+            for base in bases:
+                for how in HOWS:
+                    hs = derive_histories(f, vc, vd, base, how)
+                    n += 1
+                    for h in [hs[n % len(hs)]] if quick else hs:
+                        cases.append({'kind': 'single', 'events': h, 'fx': True, 'directed': 'derive-' + f})
+    # (b) every way of deriving x every route of application (compiled routes are slow: one history each)
+    for how in HOWS:
+        for route in ROUTES[1:]:
+            for rep in range(1 if quick else 4):
+                f = SETTINGS[(n + rep) % 4]
+                n += 1
+                vc, vd = rng.sample(VALUES[f], 2)
+                hs = derive_histories(f, vc, vd, deciding_base(f, vc, vd), how, route)
+                cases.append({'kind': 'single', 'events': hs[n % 3], 'fx': True, 'directed': 'derive-route'})
+    # (c) every setting x every ordered pair of values: two inverses differing in that setting only, passed one
+    # after the other to the same jitted function
+    for f in SETTINGS:
+        rest = [b for b in all_bases(f) if b not in must_bases(f)]
+        for k, (v1, v2) in enumerate(itertools.permutations(VALUES[f], 2)):
+            routes = [['jitarg', 'fjitarg'][k % 2]] if quick else ['jitarg', 'fjitarg']
+            bases = [deciding_base(f, v1, v2)] if quick else must_bases(f) + rng.sample(rest, 2)
+            for route in routes:
+                for base in bases:
+                    hs = jitarg_histories(f, v1, v2, base, route)
+                    n += 1
+                    for h in [hs[n % len(hs)]] if quick else hs:
+                        cases.append({'kind': 'single', 'events': h, 'fx': True, 'directed': 'jitarg-' + f})
+    # (d) every route x every setting x applied under another value of the setting (no derivation)
+    for route in ROUTES[1:]:
+        for f in SETTINGS:
+            pairs = list(itertools.permutations(VALUES[f], 2))
+            for vc, va in [pairs[n % len(pairs)]] if quick else pairs:
+                n += 1
+                h = directed_histories(f, vc, va, deciding_base(f, vc, va))[n % 5]
+                h = [[e[0], e[1], route] if e[0] == 'A' else e for e in h]
+                cases.append({'kind': 'single', 'events': h, 'fx': True, 'directed': 'route-' + route})
+    return cases
+
+
+def eq_cases(rng, quick):
+    """ConfigState equality (what the jit cache keys on): pairs of configurations that differ in exactly one
+    field (every field, every unordered pair of its values, several values of the other fields), equal pairs
+    built separately, random pairs."""
+    cases = []
+    for f in SETTINGS:
+        j = SETTINGS.index(f)
+        bases = must_bases(f) + rng.sample(all_bases(f), 2 if quick else 12)
+        for v1, v2 in itertools.combinations(VALUES[f], 2):
+            for base in bases:
+                a = [base.get(g, v1) for g in SETTINGS]
+                b = list(a)
+                b[j] = v2
+                cases.append({'kind': 'eq', 'a': a, 'b': b})
+    for _ in range(40 if quick else 400):
+        a = [rng.choice(VALUES[g]) for g in SETTINGS]
+        cases.append({'kind': 'eq', 'a': a, 'b': list(a)})
+        cases.append({'kind': 'eq', 'a': a, 'b': [rng.choice(VALUES[g]) for g in SETTINGS]})
+    return cases
+
+
+def enum_histories(maxlen, kws, derive=False):
+    """All well-nested histories with at most maxlen events; with derive, also derivations from the latest
+    object (the way of deriving rotates with the position) - only the histories that derive are kept."""
     out = []
 
     def go(h, depth, ninv):
-        if depth == 0:
+        if depth == 0 and (not derive or (any(e[0] == 'D' for e in h) and h[-1][0] == 'A')):
             out.append(list(h))
         if len(h) + depth >= maxlen:
             # only closing moves can still fit
@@ -599,16 +973,24 @@ def enum_histories(maxlen, kws):
             h.append(['A', ninv - 1])
             go(h, depth, ninv)
             h.pop()
+        if derive and ninv > 0 and sum(e[0] == 'D' for e in h) < 2:
+            h.append(['D', ninv - 1, HOWS[(3 * len(h) + 5 * depth + ninv) % len(HOWS)]])
+            go(h, depth, ninv + 1)
+            h.pop()
 
     go([], 0, 0)
     return out
 
 
-def random_history(rng, length, kws):
+def random_history(rng, length, kws, derive=0.0, routes=None):
+    """derive: probability of a derivation event; routes: the routes applications may take (default eager)."""
     h, depth, ninv = [], 0, 0
     while len(h) + depth < length:
         r = rng.random()
-        if r < 0.3:
+        if ninv > 0 and rng.random() < derive:
+            h.append(['D', rng.randrange(ninv), rng.choice(HOWS)])
+            ninv += 1
+        elif r < 0.3:
             h.append(['E', rng.choice(kws)])
             depth += 1
         elif r < 0.5 and depth > 0:
@@ -620,7 +1002,7 @@ def random_history(rng, length, kws):
             h.append(['N'])
             ninv += 1
         elif ninv > 0:
-            h.append(['A', rng.randrange(ninv)])
+            h.append(['A', rng.randrange(ninv)] + ([rng.choice(routes)] if routes else []))
         else:
             h.append(['R'])
     while depth > 0:
@@ -635,13 +1017,92 @@ def coq_event(e) -> str:
     if e[0] == 'E':
         kw = clist(e[1].items(), lambda kv: f'({COQ_SET[kv[0]]}, {cz(kv[1])})')
         return f'Enter {kw}'
+    if e[0] == 'D':
+        return f'Derive {COQ_HOW[e[2]]} {e[1]}%nat'
+    if e[0] == 'A' and len(e) > 2:
+        return f'ApplyVia {COQ_ROUTE[e[2]]} {e[1]}%nat'
     return {'X': 'Exit', 'XE': 'ExitExc', 'N': 'NewInverse', 'R': 'Read'}.get(e[0]) or f'ApplyInverse {e[1]}%nat'
+
+
+def static_ties(fc):
+    """Structural ties of Model.Config to what happens to the captured configuration AFTER the creation (fail closed).
+    1. cfg_eqb = ConfigState.__eq__: generated by @dataclass(eq=True, frozen=True), every field compared, nothing
+       hand-written; InverseOperator.config is a static field (so this equality is what the jit cache uses).
+    2. Derive DReduce keeps the configuration: the lazy-inverse classes inherit `reduce` (return self).
+    3. The configuration is captured at ONE site: in the furax package the active configuration is read only in
+       InverseOperator.__init__, and InverseOperator is constructed only by AbstractLinearOperator.inverse."""
+    import ast
+    import inspect
+    import pathlib
+    import textwrap
+
+    import furax
+    from furax._base import core
+
+    CS = fc.ConfigState
+    params = CS.__dataclass_params__
+    if not (params.eq and params.frozen):
+        raise lib.Tie(f'ConfigState is declared with {params}: the model compares every field (eq=True) of an immutable record (frozen=True)')
+    excluded = [f.name for f in dataclasses.fields(CS) if not f.compare]
+    if excluded:
+        raise lib.Tie(
+            f'ConfigState fields {excluded} are excluded from comparison (compare=False): InverseOperator.config is a static pytree field, '
+            'so lazy inverses created under configurations that differ in these fields only get EQUAL tree structures and the jit cache '
+            'of a function taking them as arguments runs one with the configuration of the other (Model.Config.cfg_eqb compares every field)'
+        )
+    body = ast.parse(textwrap.dedent(inspect.getsource(CS))).body[0]
+    own = [n.name for n in body.body if isinstance(n, ast.FunctionDef) and n.name in ('__eq__', '__ne__', '__hash__', '__lt__', '__le__')]
+    if own:
+        raise lib.Tie(f'ConfigState defines {own} by hand: the model takes the dataclass-generated comparison of every field')
+    fld = {f.name: f for f in dataclasses.fields(core.InverseOperator)}.get('config')
+    if fld is None or not fld.metadata.get('static'):
+        raise lib.Tie('InverseOperator.config is no longer a static equinox field: the model keeps the configuration in the tree structure')
+    for cls in core.InverseOperator.__mro__:
+        if cls is core.AbstractLinearOperator:
+            break
+        if 'reduce' in vars(cls):
+            raise lib.Tie(f'{cls.__name__} defines reduce(): the model (Derive DReduce) keeps the SAME lazy inverse, hence its configuration, '
+                          'when an expression holding it is reduced (AbstractLinearOperator.reduce: return self)')  # fmt: skip
+    red = ast.parse(textwrap.dedent(inspect.getsource(core.AbstractLinearOperator.reduce))).body[0]
+    stmts = [n for n in red.body if not (isinstance(n, ast.Expr) and isinstance(n.value, ast.Constant))]
+    if not (len(stmts) == 1 and isinstance(stmts[0], ast.Return) and isinstance(stmts[0].value, ast.Name) and stmts[0].value.id == 'self'):
+        raise lib.Tie('AbstractLinearOperator.reduce is no longer `return self`')
+    reads, builds = [], []
+    root = pathlib.Path(furax.__file__).parent
+    for path in sorted(root.rglob('*.py')):
+        if path == root / '_base' / 'config.py':
+            continue
+        tree = ast.parse(path.read_text())
+
+        def visit(node, where):
+            for child in ast.iter_child_nodes(node):
+                w = where + [child.name] if isinstance(child, (ast.ClassDef, ast.FunctionDef, ast.AsyncFunctionDef)) else where
+                if isinstance(child, ast.Attribute) and child.attr in ('instance', '_instance') and isinstance(child.value, ast.Name) and child.value.id == 'Config':
+                    reads.append((str(path.relative_to(root)), '.'.join(w)))
+                if isinstance(child, ast.Name) and child.id in ('_config_var',):
+                    reads.append((str(path.relative_to(root)), '.'.join(w)))
+                if isinstance(child, ast.Call) and isinstance(child.func, (ast.Name, ast.Attribute)):
+                    name = child.func.id if isinstance(child.func, ast.Name) else child.func.attr
+                    if name == 'InverseOperator':
+                        builds.append((str(path.relative_to(root)), '.'.join(w)))
+                visit(child, w)
+
+        visit(tree, [])
+    if set(reads) != {('_base/core.py', 'InverseOperator.__init__')}:
+        raise lib.Tie(f'the active configuration is read at {sorted(set(reads))}: the model captures it in InverseOperator.__init__ only')
+    if set(builds) != {('_base/core.py', 'AbstractLinearOperator.inverse')}:
+        raise lib.Tie(
+            f'InverseOperator is constructed at {sorted(set(builds))}: the model creates a lazy inverse (and captures the active '
+            'configuration) only where the user asks for one (AbstractLinearOperator.inverse, i.e. `.I`); any other site RE-creates '
+            'an inverse and re-captures whatever configuration is active there'
+        )
 
 
 class Check(PropertyCheck):
     id = 'C19'
     props = ['C19.v']
     static_targets = ['theories/Lemmas/ConfigL.vo']
+    workers = 4  # genuine solves and XLA compilations dominate; cases() is deterministic in (tier, seed)
     coq_header = 'From Coq Require Import ZArith List.\nFrom Furax Require Import Model.Config.\nImport ListNotations.\nOpen Scope Z_scope.'
     trusted = [
         "CPython contextvars semantics as modelled: one binding per thread/context, ContextVar.set returns a token "
@@ -656,6 +1117,22 @@ class Check(PropertyCheck):
         'rule documented by lineax.CG (all stopping decisions >= 10**0.1 away from their thresholds, reference vectors '
         'separated by >= 20x the matching tolerance: self-checked on every run); the table of failing (solver, options) '
         'pairs given to the model comes from that reference; that a failed lineax solve raises iff throw is lineax semantics',
+        'objects derived from a lazy inverse (Derive): the harness builds genuine furax expressions around it - composition with '
+        'cyclic-shift dense operators on either side, scalar multiple, sum with the zero operator, block diagonal / column / row, '
+        'pytree round trip, .I.I - under the configuration active at that point of the history and calls .reduce(); the maps between '
+        'the probe vector and the input / output of the expression are exact (permutations, powers of two, + 0.0), so the held '
+        'inverse solves exactly the probed systems and its effect is identified as for a direct application',
+        'routes of application (ApplyVia): eager, jax.jit over a closure, argument of ONE jax.jit / equinox.filter_jit function per '
+        'history, generic as_matrix of (object @ column(B)); the jit cache is modelled (Model.Config.jit_lookup) as a list of '
+        'configurations per function compared with ConfigState.__eq__ - that JAX compares static pytree fields with == when it '
+        'looks its cache up is JAX semantics; the model leaves the structure of the expression out of the cache key',
+        'static ties (harness/c19.py static_ties, fail closed): ConfigState is @dataclass(eq, frozen) with every field compared and no '
+        'hand-written comparison; InverseOperator.config is a static field; no lazy-inverse class overrides reduce(); in the furax '
+        'package the active configuration is read only in InverseOperator.__init__ and InverseOperator is constructed only in '
+        'AbstractLinearOperator.inverse',
+        'not exercised: the transpose of a lazy inverse (applying TransposeOperator(InverseOperator) raises TypeError in the code under '
+        'test), copy / pickle of operators, solver_options holding DIFFERENT array objects under the same key passed to one jitted '
+        'function (the == of the static fields raises ValueError in the cache lookup: loud, not a wrong configuration)',
     ]
 
     def translate(self):
@@ -686,6 +1163,8 @@ class Check(PropertyCheck):
         init = textwrap.dedent(inspect.getsource(InverseOperator.__init__))
         if not re.search(r'self\.config\s*=\s*Config\.instance\(\)', init):
             raise lib.Tie('InverseOperator.__init__ no longer stores Config.instance() in self.config')
+        static_ties(im['fc'])
+
 
     def cases(self):
         quick = self.tier == 'quick'
@@ -717,18 +1196,45 @@ class Check(PropertyCheck):
             self.rng.shuffle(rest)
             sched = sched[: first_fork + 1] + rest
             cases.append({'kind': 'threads', 'histories': {'0': ha2, '1': hb, '2': hc}, 'schedule': sched, 'forks': {'2': 0}})
+        # after the creation: derivations, routes of application, jit arguments, ConfigState equality
+        cases += after_creation_cases(self.rng, quick)
+        for h in enum_histories(6, KWS[:2] if quick else KWS[:3], derive=True):
+            cases.append({'kind': 'single', 'events': h, 'fx': True})
+        for _ in range(250 if quick else 4000):
+            h = random_history(self.rng, self.rng.randrange(6, 16), KWS, derive=0.2)
+            cases.append({'kind': 'single', 'events': h, 'fx': True})
+        for _ in range(20 if quick else 300):
+            h = random_history(self.rng, self.rng.randrange(8, 14), KWS, derive=0.15, routes=['eager', 'jitarg', 'jitarg', 'fjitarg', 'jit', 'matrix'])
+            cases.append({'kind': 'single', 'events': h, 'fx': True, 'directed': 'random-routes'})
+        for _ in range(60 if quick else 600):
+            ha = random_history(self.rng, 7, KWS, derive=0.25)
+            hb = random_history(self.rng, 6, KWS, derive=0.25)
+            sched = [0] * len(ha) + [1] * len(hb)
+            self.rng.shuffle(sched)
+            cases.append({'kind': 'threads', 'histories': {'0': ha, '1': hb}, 'schedule': sched, 'forks': {}})
+        cases += eq_cases(self.rng, quick)
         self.exhaustive = False
         # generator self-check (fail closed): every introspected configuration field, every ordered pair of its
-        # values (creation, application), is exercised where taking it from the wrong configuration shows
+        # values, is exercised where taking it from the wrong configuration shows - the configuration active at
+        # application time, at derivation time, or that of an object passed earlier to the same jitted function
         im = impl()
-        table = sensitivity(cases)
+        tables, per_how, per_route, inv_inv = sensitivity(cases)
         for name in im['fields']:
             f = next(k for k, v in FIELD.items() if v == name)
-            holes = [p for p, n in table[f].items() if n == 0]
-            if holes:
-                raise RuntimeError(f'generator self-check: no effect case separates creation/application values {holes} of {name}')
-        self.stats['effect_sensitive_applications'] = {FIELD[f]: sum(t.values()) for f, t in table.items()}
-        self.stats['effect_sensitive_min_per_value_pair'] = {FIELD[f]: min(t.values()) for f, t in table.items()}
+            for what, table in tables.items():
+                holes = [p for p, n in table[f].items() if n == 0]
+                if holes:
+                    raise RuntimeError(f'generator self-check ({what}): no effect case separates the values {holes} of {name}')
+            for what, table in [('derivation by', per_how), ('application through', per_route)]:
+                holes = [k for k, t in table.items() if t[f] == 0]
+                if holes:
+                    raise RuntimeError(f'generator self-check: no effect case where {name} decides the outcome of a {what} {holes}')
+            if inv_inv[f] == 0:
+                raise RuntimeError(f'generator self-check: no effect case tells the new inverse made by .I.I from the old one through {name}')
+        for what, table in tables.items():
+            self.stats[f'effect_sensitive_{what}'] = {FIELD[f]: {'total': sum(t.values()), 'min_per_value_pair': min(t.values())} for f, t in table.items()}
+        self.stats['effect_sensitive_per_derivation'] = {k: sum(t.values()) for k, t in per_how.items()}
+        self.stats['effect_sensitive_per_route'] = {k: sum(t.values()) for k, t in per_route.items()}
         self.stats['genuine_solves'] = 2 * sum(len(applications(c['events'])) for c in cases if c.get('fx'))
         self.stats['reference_solves'] = {f'solver{s}/options{o}': [r['steps'], r['ok']] for (s, o), r in sorted(im['ref'].items())}
         return cases
@@ -742,22 +1248,41 @@ class Check(PropertyCheck):
             'some through jax.jit; every well-nested history of <=5 (quick) / <=6 (thorough) events over enter(3-4 keyword '
             'sets)/exit/exit-by-exception/new-inverse/apply-inverse/read, plus seeded random histories of 6-15 events over '
             '10 keyword sets; threads: all interleavings of pairs of histories of <=4 events on real threads, plus random '
-            'schedules with a forked context. Non-trivial: contains at least one enter and one read/apply.'
+            'schedules with a forked context. AFTER THE CREATION (effect-observed as well): objects derived from an inverse under '
+            'another configuration - 11 ways (reduce of the inverse alone / composed on the left / right / both sides / scaled / summed / '
+            'in a block diagonal / column / row, pytree round trip, .I.I) x every field x every ordered pair (value at creation, value at '
+            'derivation) x 3 (quick) / 8 (thorough) values of the other fields x 5 nesting shapes (sibling, nested, after all blocks, '
+            'later block, derived twice); every way of deriving x 4 compiled routes of application (jit closure, argument of one '
+            'jax.jit / equinox.filter_jit function per history, generic as_matrix); two inverses whose configurations differ in ONE field '
+            'passed one after the other to the same jitted function - every field x every ordered pair of values x 3 shapes; every '
+            'well-nested history of <=6 events with 1-2 derivations; seeded random histories with derivations (20%) and mixed routes; '
+            'random 2-thread schedules with derivations; ConfigState equality / tree-structure equality of the inverses for pairs of '
+            'configurations differing in exactly one field (every field, every pair of values), equal pairs built separately, random pairs. '
+            'Generator self-check (fail closed): for every field and ordered pair of values there is an application whose outcome changes if '
+            'the field is taken from the configuration active at application / at derivation / of an object passed earlier to the same '
+            'jitted function; every way of deriving and every route is outcome-relevant for every field. '
+            'Non-trivial: contains at least one enter and one read/apply (equality cases: always).'
         )
 
     def distribution(self, cases):
         d = {}
         for c in cases:
             k = c['kind'] + ('/directed-' + c['directed'] if c.get('directed') else '') + ('/jit' if c.get('jit') else '')
+            if c['kind'] == 'single' and not c.get('directed') and any(e[0] == 'D' for e in c['events']):
+                k += '/with-derivations'
             d[k] = d.get(k, 0) + 1
         return d
 
     def nontrivial(self, case, obs):
+        if case['kind'] == 'eq':
+            return True
         evs = case['events'] if case['kind'] == 'single' else sum(case['histories'].values(), [])
         return any(e[0] == 'E' for e in evs) and any(e[0] in ('R', 'A') for e in evs)
 
     def run_impl(self, case):
         fc = impl()['fc']
+        if case['kind'] == 'eq':
+            return contextvars.Context().run(run_eq, case)
         if case['kind'] == 'single':
             r = Runner(case['events'], fx=case.get('fx', False), jit=case.get('jit', False))
 
@@ -783,6 +1308,8 @@ class Check(PropertyCheck):
         return {'obs': [[t, o] for t, o in gate.log]}
 
     def model_term(self, case):
+        if case['kind'] == 'eq':
+            return f"eq_fields {clist(case['a'], cz)} {clist(case['b'], cz)}"
         if case['kind'] == 'single':
             if case.get('fx'):
                 tbl = clist(impl()['fails'], lambda so: f'({cz(so[0])}, {cz(so[1])})')
@@ -801,6 +1328,8 @@ class Check(PropertyCheck):
         return 'run_global ' + clist(evs)
 
     def decode(self, case, v):
+        if case['kind'] == 'eq':
+            return {'eq': bool(v)}
         if case['kind'] == 'single':
             obs, final = v
             if case.get('fx'):
@@ -821,6 +1350,8 @@ class Check(PropertyCheck):
         return {'obs': [[t, (o if o != [] else None)] for t, o in v]}
 
     def comparable(self, case, obs):
+        if case['kind'] == 'eq' and isinstance(obs, dict) and 'eq' in obs:
+            return {'eq': obs['eq']}
         if not isinstance(obs, dict) or 'obs' not in obs:
             return obs
         if case['kind'] == 'single':
@@ -836,6 +1367,23 @@ class Check(PropertyCheck):
     def oracle(self, case, obs):
         if 'error' in obs:
             return f'threads failed: {obs["error"]}'
+        if case['kind'] == 'eq':
+            same = case['a'] == case['b']
+            names = [FIELD[f] for f in SETTINGS]
+            what = f'ConfigState a = {dict(zip(names, case["a"]))}, b = {dict(zip(names, case["b"]))} [{LEGEND.split(";")[0]} ...; see harness/c19.py impl()]'
+            if obs['ids'] != [case['a'], case['b']]:
+                return f'{what}: the blocks `with Config(**kw) as c` returned configurations holding {obs["ids"]}'
+            bad = [k for k in ('eq', 'inverse_config_eq', 'inverse_treedef_eq') if obs[k] != same]
+            if obs['ne'] == obs['eq']:
+                bad.append('ne')
+            if same and obs['hash'] == 'different':
+                bad.append('hash')
+            if bad:
+                diff = [FIELD[f] for j, f in enumerate(SETTINGS) if case['a'][j] != case['b'][j]]
+                return (f'{what}: the configurations differ in {diff or "nothing"} but {({k: obs[k] for k in bad})}: InverseOperator.config is a '
+                        'static pytree field, so the jit cache of a function taking lazy inverses as ARGUMENTS keys on this equality - two '
+                        'inverses created under these configurations would run with the configuration of whichever was traced first')  # fmt: skip
+            return None
         if case['kind'] == 'single':
             fx = case.get('fx', False)
             exp, final = lib.canon(reference(case['events'], fx=fx))
@@ -844,18 +1392,38 @@ class Check(PropertyCheck):
                 i = next(i for i, (a, b) in enumerate(zip(got, exp)) if a != b)
                 msg = f'event {i} {case["events"][i]} observed {got[i]} expected {exp[i]}'
                 if fx and isinstance(got[i], dict):
-                    cap, act = next((c, a) for j, c, a in applications(case['events']) if j == i)
+                    a = next(a for a in applications(case['events'], case.get('jit', False)) if a['i'] == i)
+                    cap, act = a['cap'], a['act']
                     names = [FIELD[f] for f in SETTINGS]
+                    show = lambda c: dict(zip(names, c))  # noqa: E731
                     msg += f' [{LEGEND}]'
-                    msg += f'; the inverse was created under {dict(zip(names, cap))} and applied under {dict(zip(names, act))}'
-                    if got[i].get('cfg') == cap:
-                        eff = {k: got[i].get(k) for k in ('main', 'sing')}
-                        why = [sub for sub, h in hybrids(cap, act) if lib.canon(expected_effect(h)) == eff]
+                    msg += f'; the lazy inverse held by the applied object was created under {show(cap)}'
+                    if a['replaced'] is not None:
+                        msg += f' (by .I.I, from an inverse created under {show(a["replaced"])})'
+                    if a['derived']:
+                        msg += '; the object was then derived by ' + ', '.join(f'{h} under {show(c)}' for h, c in a['derived'])
+                    msg += f'; it is applied (route {a["route"]}) under {show(act)}'
+                    if a['earlier']:
+                        msg += f'; objects passed earlier to the same jitted function carried {[show(c) for c in a["earlier"]]}'
+                    eff = {k: got[i].get(k) for k in ('main', 'sing')}
+                    same = lambda c: lib.canon(expected_effect(c)) == eff  # noqa: E731
+                    stored = got[i].get('cfg')
+                    whys = []
+                    for label, other in (
+                        [('the configuration active at APPLICATION time', act)]
+                        + [(f'the configuration active at DERIVATION time ({h})', c) for h, c in a['derived']]
+                        + [('an object passed EARLIER to the same jitted function (jit cache hit)', c) for c in a['earlier']]
+                        + ([('the inverse .I.I was taken from', a['replaced'])] if a['replaced'] is not None else [])
+                    ):
+                        why = [sub for sub, h in hybrids(cap, other) if same(h)]
                         if why:
-                            msg += (f': op.I(y) [main: A x = y, sing: singular Z x = y] behaves as if {[FIELD[f] for f in why[0]]} '
-                                    'were taken from the configuration active at APPLICATION time')  # fmt: skip
-                        else:
-                            msg += ': the effect of op.I(y) is not that of the captured configuration (whose fields are stored intact)'
+                            whys.append(f'{[FIELD[f] for f in why[0]]} were taken from {label}')
+                    if stored != cap:
+                        msg += f': the object stores {show(stored) if isinstance(stored, list) and len(stored) == 4 else stored}'
+                    if whys:
+                        msg += ': op.I(y) [main: A x = y, sing: singular Z x = y] behaves as if ' + ' / or as if '.join(whys)
+                    elif stored == cap:
+                        msg += ': the effect of op.I(y) is not that of the captured configuration (whose fields are stored intact)'
                 return msg
             if obs['final'] != [0, 0, 0, 0]:
                 return f'configuration after the history is {obs["final"]}, not the defaults'
